@@ -19,6 +19,7 @@ func init() {
 			"PV-ONCE groupEntries (decoded records are kept on the way out)",
 			"ERR-PROP frame size: no failure exit of the frame decoder depends on the frame's size",
 			"PV-ROLE openLog is given SelectLogs' own context",
+			"PV-TOTAL NewTimestampFromTime converts every instant (no clamping to a constant)",
 		},
 		NotDecided: []string{"that io.ReadFull/io.CopyN/time.Parse meet their documented contracts", "nanosecond exactness of pcommon.NewTimestampFromTime", "frames larger than memory"},
 		Rules: func(r *Run) {
@@ -31,6 +32,7 @@ func init() {
 			ruleGroupEntries(r)                                      // decoded records are not lost on the way out: every entry of a stream is kept
 			ruleFrameSizeNotJudged(r)
 			ruleOpenLogContext(r) // the streams are read under the query context, not one that ends when the opening is done
+			ruleTimestampConversionTotal(r)
 		},
 	})
 }
